@@ -146,7 +146,10 @@ pub enum Op {
 }
 
 pub fn node_arc(n: N, a: Option<A>) -> Arc<Node<N, A>> {
-    Arc::new(Node { name: n, attributes: a })
+    match a {
+        Some(x) => Node::from_name_and_attributes(n, x),
+        None => Node::from_name(n),
+    }
 }
 
 impl Op {
